@@ -12,9 +12,11 @@ rejects anything that is not a permutation of `0 … m-1`, which is what NumPy r
 
 All seven generators have an executable model.  `makeevenCIJ` and `makefractalCIJ` build the
 hierarchical template with the doubling loop as coded (`tmpl`, `hierTemplate`); the float threshold
-matrices of `maketoeplitzCIJ` (scaled Gaussian profile) and `makefractalCIJ` (`1/E**ee`) are *inputs*
-of the model, observed in the real run as exact dyadic rationals: `norm.pdf`, the float scaling and the
-float powers are not modelled, only their structural use (`toeplitzOf`, `probConsistent`).
+matrix of `maketoeplitzCIJ` (scaled Gaussian profile) is an *input* of the model, observed in the real run
+as exact dyadic rationals (`norm.pdf` and the float scaling are not modelled, only the Toeplitz layout); the
+probability matrix of `makefractalCIJ` is observed too, but accepted only if it is `1/E^ee` for the model's
+own `ee` (`probConsistent`: 0 on the diagonal, exactly 1 where `ee = 0`, within 1e-12 of the rational `1/E^ee`
+elsewhere, one double per value of `ee`).
 
 ## The ring lattice
 
@@ -77,7 +79,7 @@ theorem randCIJ_und_total (n k : Nat) (ds : List Nat) (m : Nat) (hm : 2 * m = n 
 template the doubling loop builds -/
 def clusterCount (n mx szcl : Nat) : Nat := (allCells n).countP (inCluster (hierT n mx) mx szcl)
 
-/-- `makeevenCIJ(n, k, sz_cl)` — model with the template loop as coded.  If it returns, then n = 2^mx ≥ 4,
+/-- `makeevenCIJ(n, k, sz_cl)` — model with the template loop as coded.  If it returns, then n = 2^mx ≥ 2,
 and for sz_cl ≤ mx and a feasible k (`clusterCount ≤ k ≤ n(n-1)`), for every permutation draw: a 0/1
 matrix with empty diagonal in which every cluster cell is 1 and the total number of ones is exactly k. -/
 theorem even_spec (n mx k szcl : Nat) (ds : List Nat) {C : AMat Int n} {rest : List Nat}
@@ -87,6 +89,13 @@ theorem even_spec (n mx k szcl : Nat) (ds : List Nat) {C : AMat Int n} {rest : L
     (∀ i j, inCluster (hierT n mx) mx szcl (i, j) = true → C.toFun i j = 1) ∧ matSum C = k := by
   obtain ⟨_, _, h1, h2, h3, h4⟩ := evenCIJ_core mx k szcl ds h hsz (by unfold clusterCount at hk1; exact_mod_cast hk1) hk2
   exact ⟨fun i j => h1 (i, j), h2, fun i j => h3 (i, j), h4⟩
+
+/-- totality: for n = 2^mx ≥ 2 and every k, sz_cl the routine returns for every draw list that starts with a
+permutation of the right length m (m = 0 when k is below the cluster count), and consumes exactly it -/
+theorem even_total (n mx k szcl : Nat) (hmx : 1 ≤ mx) (hn : n = 2 ^ mx) :
+    ∃ m, ∀ ds : List Nat, m ≤ ds.length → isPermOfRange (ds.take m) m = true →
+      ∃ C : AMat Int n, evenCIJ n mx k szcl ds = .ok (C, ds.drop m) :=
+  evenCIJ_total mx k szcl hmx hn
 
 /-- the template of the doubling loop has an empty diagonal after `CIJ -= ones + mx_lvl * eye` -/
 theorem template_diag (n mx : Nat) (i : Fin n) : (hierT n mx).toFun i i = 0 := hierT_diag mx i
@@ -104,14 +113,20 @@ theorem toeplitz_spec (n k : Nat) (prof : List Thr) (ds : List Nat) {C : AMat In
 
 /-! ### makefractalCIJ -/
 
-/-- `makefractalCIJ(mx_lvl, E, sz_cl)` returns `(CIJ, k)` with `k` the number of connections of the
-returned 0/1 matrix, whose diagonal is empty; for every observed probability matrix that has the
-structure the code dictates and every uniform draw. -/
-theorem fractal_count (n mx szcl : Nat) (prob : AMat Thr n) (ds : List Nat)
-    {C : AMat Int n} {kk : Int} {rest : List Nat} (h : fractalCIJ n mx szcl prob ds = .ok (C, kk, rest)) :
+/-- `makefractalCIJ(mx_lvl, E, sz_cl)` (positive integer E) returns `(CIJ, k)` with `k` the number of connections
+of the returned 0/1 matrix, whose diagonal is empty; for every observed probability matrix that is `1/E^ee`
+(`probConsistent`) and every uniform draw. -/
+theorem fractal_count (n mx szcl E : Nat) (prob : AMat Thr n) (ds : List Nat)
+    {C : AMat Int n} {kk : Int} {rest : List Nat} (h : fractalCIJ n mx szcl E prob ds = .ok (C, kk, rest)) :
     kk = matSum C ∧ (∀ i j, C.toFun i j = 0 ∨ C.toFun i j = 1) ∧ (∀ i, C.toFun i i = 0) ∧ n = 2 ^ mx := by
-  obtain ⟨h1, h2, h3, h4, _⟩ := fractalCIJ_core mx szcl prob ds h
+  obtain ⟨h1, h2, h3, h4, _⟩ := fractalCIJ_core mx szcl E prob ds h
   exact ⟨h1, fun i j => h2 (i, j), h3, h4⟩
+
+/-- totality: n = 2^mx ≥ 2, E ≥ 1, a probability matrix that is `1/E^ee`, and n² uniform draws ⇒ it returns -/
+theorem fractal_total (n mx szcl E : Nat) (prob : AMat Thr n) (ds : List Nat) (hmx : 1 ≤ mx) (hn : n = 2 ^ mx) (hE : E ≠ 0)
+    (hp : probConsistent (hierT n mx) mx szcl E prob = true) (hds : n * n ≤ ds.length) :
+    ∃ C kk, fractalCIJ n mx szcl E prob ds = .ok (C, kk, ds.drop (n * n)) :=
+  fractalCIJ_total mx szcl E prob ds hmx hn hE hp hds
 
 /-! ### makerandCIJdegreesfixed -/
 
@@ -159,6 +174,13 @@ theorem ring_spec (n k : Nat) (hk : k ≤ n * (n - 1)) (ds : List Nat)
     · exact Or.inl h0
     · right; exact_mod_cast h0
 
+/-- totality: for every feasible k there is a number m of permutation values (0 when nothing has to be removed) such
+that the routine returns for every draw list starting with a permutation of `0 … m-1`, consuming exactly it -/
+theorem ring_total (n k : Nat) (hk : k ≤ n * (n - 1)) :
+    ∃ m, ∀ ds : List Nat, m ≤ ds.length → isPermOfRange (ds.take m) m = true →
+      ∃ C : AMat Int n, ringLattice n k ds = .ok (C, ds.drop m) :=
+  ringLattice_total k (by rw [nearCnt_full]; exact_mod_cast hk)
+
 /-- consequences in the words of the property -/
 theorem ring_bands (n k : Nat) (hk : k ≤ n * (n - 1)) (ds : List Nat)
     {C : AMat Int n} {rest : List Nat} (h : ringLattice n k ds = .ok (C, rest)) :
@@ -199,12 +221,18 @@ example : (toeplitzCIJ 3 2 [(1, 2), (1, 4)]
       ([0, 1, 1, 1, 0, 2 ^ 53 - 1, 2 ^ 53 - 1, 1, 0] ++ [0, 1, 2 ^ 53 - 1, 2 ^ 53 - 1, 0, 2 ^ 53 - 1, 2 ^ 53 - 1, 1, 0] ++ [5])).toOption
     = some (#v[#v[0, 1, 0], #v[0, 0, 0], #v[0, 1, 0]], [5]) := by decide +kernel
 -- fractal: mx_lvl = 2 (n = 4), sz_cl = 1, E = 2: prob = 1 inside the 2-blocks, 1/2 across, 0 on the diagonal
-example : (fractalCIJ 4 2 1 #v[#v[(0, 1), (1, 1), (1, 2), (1, 2)], #v[(1, 1), (0, 1), (1, 2), (1, 2)],
+example : (fractalCIJ 4 2 1 2 #v[#v[(0, 1), (1, 1), (1, 2), (1, 2)], #v[(1, 1), (0, 1), (1, 2), (1, 2)],
                                #v[(1, 2), (1, 2), (0, 1), (1, 1)], #v[(1, 2), (1, 2), (1, 1), (0, 1)]]
       [0, 7, 2 ^ 52, 3, 9, 0, 2 ^ 52 + 1, 2 ^ 52 - 1, 1, 2 ^ 53 - 1, 0, 5, 2 ^ 52, 0, 2 ^ 53 - 1, 0]).toOption
     = some (#v[#v[0, 1, 0, 1], #v[1, 0, 0, 1], #v[1, 0, 0, 1], #v[0, 1, 1, 0]], 8, []) := by decide +kernel
+-- … the same matrix is refused for E = 3 (1/2 is not 1/3): the probabilities are checked against E
+example : (fractalCIJ 4 2 1 3 #v[#v[(0, 1), (1, 1), (1, 2), (1, 2)], #v[(1, 1), (0, 1), (1, 2), (1, 2)],
+                                 #v[(1, 2), (1, 2), (0, 1), (1, 1)], #v[(1, 2), (1, 2), (1, 1), (0, 1)]] []).toOption = none := by
+  decide +kernel
+-- … mx_lvl = 1 (n = 2): the template is the initial 2×2 block; makeevenCIJ(2, 2, 1) is the full 2-node graph
+example : (evenCIJ 2 1 2 1 []).toOption = some (#v[#v[0, 1], #v[1, 0]], []) := by decide +kernel
 -- … an inconsistent probability matrix (a non-zero diagonal entry) is refused
-example : (fractalCIJ 4 2 1 #v[#v[(1, 1), (1, 1), (1, 2), (1, 2)], #v[(1, 1), (0, 1), (1, 2), (1, 2)],
+example : (fractalCIJ 4 2 1 2 #v[#v[(1, 1), (1, 1), (1, 2), (1, 2)], #v[(1, 1), (0, 1), (1, 2), (1, 2)],
                                #v[(1, 2), (1, 2), (0, 1), (1, 1)], #v[(1, 2), (1, 2), (1, 1), (0, 1)]] []).toOption = none := by
   decide +kernel
 -- degrees fixed: inv = outv = (1,1,1); the identity permutation forces two repairs (switch 1, then 0)
